@@ -18,6 +18,7 @@ import (
 	"time"
 
 	badger "github.com/dgraph-io/badger/v4"
+	"github.com/dgraph-io/badger/v4/options"
 )
 
 type J = map[string]interface{}
@@ -49,6 +50,10 @@ type sysOpts struct {
 	TableSize     int64
 	BaseLevelSize int64
 	MemSize       int64
+	// storage-format options that must not change any observable result
+	Compression int // 0 default, 1 none, 2 snappy, 3 zstd
+	Checksums   int // 0 default, 1..3 = options.ChecksumVerificationMode OnTableRead/OnBlockRead/OnTableAndBlockRead
+	BlockSize   int // 0 = 64
 }
 
 type hist struct {
@@ -107,6 +112,20 @@ func openSysDB(dir string, o sysOpts) (*badger.DB, error) {
 	}
 	if len(o.EncKey) > 0 {
 		opt = opt.WithEncryptionKey(o.EncKey).WithIndexCacheSize(1 << 20).WithBlockCacheSize(1 << 20)
+	}
+	switch o.Compression {
+	case 1:
+		opt = opt.WithCompression(options.None)
+	case 2:
+		opt = opt.WithCompression(options.Snappy)
+	case 3:
+		opt = opt.WithCompression(options.ZSTD).WithZSTDCompressionLevel(1)
+	}
+	if o.Checksums > 0 {
+		opt = opt.WithChecksumVerificationMode(options.ChecksumVerificationMode(o.Checksums))
+	}
+	if o.BlockSize > 0 {
+		opt = opt.WithBlockSize(o.BlockSize)
 	}
 	if o.Managed {
 		return badger.OpenManaged(opt)
